@@ -269,7 +269,7 @@ type blockInfo struct {
 }
 
 type fnCtx struct {
-	noEval bool // expanding a named condition: its calls were already made
+	noEval  bool // expanding a named condition: its calls were already made
 	e       *Engine
 	fn      *Func
 	info    *types.Info
